@@ -14,7 +14,7 @@ RULE = ('(a) exhaustive: every well-formed operator sequence of length <=2 (quic
         'classes (empty, singleton, ints, ints+exception objects, nested lists, None/falsy elements ending in None, nested lists of None), consumed by iteration / collect / drain / a second iteration of the same Stream object after a complete or abandoned first one; (b) seeded random programs '
         'of length <=7 on lists up to 40; (c) one-to-one chains on an instrumented unbounded source: 0 pulls at construction, pulls <= k + sum of '
         'look-ahead after taking k outputs. non-trivial = program of >=2 operators whose reference output is non-empty or ends in an exception; '
-        'distinct = distinct (program, input); (d) stalled consumption: consumer or source silent for 0.12-2.2 s while buffers / look-ahead windows are full')
+        'distinct = distinct (program, input); (d) stalled consumption: consumer or source silent for 0.12-2.2 s while buffers / look-ahead windows are full; (e) elements whose == answers True to everything or has no truth value (numpy-like), through buffer / parmap / batch / AsyncIter / SyncIter / async buffer / async parmap: the same objects must come out')
 ASSUMPTIONS = ['groupby groups are materialised by a map directly after groupby (late consumption across threads is schedule-dependent by itertools\' own contract)',
                'shuffle is compared as a multiset and only as the last operator',
                'exceptions compared by (type name, args)']
@@ -94,6 +94,10 @@ def gen_cases(tier, seed):
     for i in range(28 if tier == 'quick' else 400):
         cases.append({'kind': 'stalled', 'seed': rng.randrange(1 << 30), 'stall': rng.choice([0.12, 0.25, 1.15, 1.15, 2.2]), 'who': rng.choice(['consumer', 'consumer', 'source']),
                       'at': rng.choice([1, 2, 5])})
+    # (e) elements whose == is not an identity test, through the operators and adapters that only pass elements on
+    for carrier in ('buffer', 'buffer-parmap', 'peek-batch-unbatch', 'AsyncIter', 'AsyncIter-of-stream', 'async-buffer', 'async-parmap', 'SyncIter'):
+        for size in (1, 3):
+            cases.append({'kind': 'hostile-eq', 'carrier': carrier, 'size': size})
     return cases
 
 
@@ -218,6 +222,14 @@ def check_program(S, viol, obs, items_desc, prog, mode):
     return (len(prog) >= 2 and (bool(exp_out) or exp_term[0] == 'RAISED'))
 
 
+def _same(x):
+    return x
+
+
+async def _same_async(x):
+    return x
+
+
 def run_case(case):
     import mpservice.streamer._streamer as S
 
@@ -319,6 +331,71 @@ def run_case(case):
                          f'{len(out)} outputs {term!r}, reference {len(exp_out)} {exp_term!r}; missing {missing!r}', 'program': prog})
         sigs.append(hash(('stalled', repr(prog), case['stall'], case['who'])) & 0xFFFFFFFFFFFF)
         sample = {'stalled': True, 'program': prog, 'stall_s': case['stall'], 'who': case['who'], 'outputs': len(out)}
+    elif case['kind'] == 'hostile-eq':
+        # elements whose == is not a yes/no answer about identity: equal to everything (mock.ANY), or element-wise without a truth value
+        # (numpy arrays).  Operators that only pass elements on must deliver the very same objects, all of them, in order.
+        import asyncio
+
+        import mpservice.streamer._streamer_async as SA
+        from vlib.targets import ArrayLike, EqAll
+
+        items = [1, EqAll(1), 2, ArrayLike(2), 'three', EqAll(3), ArrayLike(4), None]
+        which = case['carrier']
+
+        def run():
+            if which == 'buffer':
+                return list(S.Stream(items).buffer(case['size']))
+            if which == 'buffer-parmap':
+                return list(S.Stream(items).buffer(case['size']).parmap(_same, executor='thread', concurrency=2).buffer(1))
+            if which == 'peek-batch-unbatch':
+                return list(S.Stream(items).peek(interval=1, print_func=lambda *a: None).batch(3).unbatch())
+            if which == 'tee':
+                import mpservice.streamer._tee as T
+
+                a, b = T.tee(items, 2, buffer_size=case['size'])
+                la = list(a)
+                return la if [id(z) for z in la] == [id(z) for z in b] else ['TEE-FORKS-DIFFER']
+
+            async def amain():
+                async def asrc():
+                    for z in items:
+                        yield z
+
+                if which == 'AsyncIter':
+                    return [z async for z in SA.AsyncIter(items)]
+                if which == 'AsyncIter-of-stream':
+                    return [z async for z in SA.AsyncIter(S.Stream(items).buffer(case['size']))]
+                if which == 'async-buffer':
+                    return [z async for z in SA.AsyncStream(asrc()).buffer(case['size'])]
+                if which == 'async-parmap':
+                    return [z async for z in SA.AsyncStream(asrc()).parmap(_same_async, concurrency=2)]
+                raise ValueError(which)
+
+            if which == 'SyncIter':
+                async def asrc2():
+                    for z in items:
+                        yield z
+
+                return list(SA.SyncIter(asrc2()))
+            return asyncio.run(amain())
+
+        term = None
+        out = []
+        try:
+            out = watch.run_bounded(run, BOUND, 'hostile-eq elements')
+        except watch.Hang as h:
+            viol.append({'mech': 'pipeline/hang', 'msg': f'{which} over elements with unusual == did not finish', 'stacks': h.stacks})
+            return {'violations': viol, 'obs': obs, 'exit_after': True}
+        except Exception as e:  # noqa: BLE001
+            term = e
+        obs['programs'] += 1
+        obs['hostile_eq_runs'] = obs.get('hostile_eq_runs', 0) + 1
+        obs['outputs_compared'] += len(items)
+        if term is not None or len(out) != len(items) or any(a is not b for a, b in zip(out, items)):
+            viol.append({'mech': 'pipeline/element-compared-with-internal-marker', 'msg': f'{which}(size {case.get("size")}) over {items!r}: '
+                         + (f'raised {term!r}' if term is not None else f'delivered {out!r}') + '; these operators only pass elements on'})
+        sigs.append(hash(('hostile-eq', which, case.get('size'))) & 0xFFFFFFFFFFFF)
+        sample = {'hostile_eq': True, 'carrier': which, 'delivered': len(out)}
     else:  # incremental
         rng = random.Random(case['seed'])
         for _ in range(case['n_programs']):
